@@ -221,10 +221,39 @@ def bounded_elementwise(chk):
                                               'percent_point of element %d is %.9g inside the batch and %.9g alone' %
                                               (i, batch[i], alone))
                         break
+                # the same batch handed over in other one-dimensional containers: a list, a strided view, and pandas Series
+                # whose index is not 0..n-1 (the columns of a re-ordered frame) - positions, not labels, pair y with v
+                import pandas as pd
+                k = 120
+                perm = rs.permutation(k)
+                yy, vv = y[:k], v[:k]
+                forms = {'list': (list(yy), list(vv)),
+                         'strided view': (np.repeat(yy, 2)[::2], np.repeat(vv, 2)[::2]),
+                         'Series with a shuffled index': (pd.Series(yy, index=perm), pd.Series(vv, index=perm)),
+                         'Series with a shifted index': (pd.Series(yy, index=np.arange(5, k + 5)), pd.Series(vv, index=np.arange(5, k + 5)))}
+                for form, (ya, va) in forms.items():
+                    evals += k
+                    try:
+                        got = np.asarray(c.percent_point(ya, va), dtype=float)
+                        okf = got.shape == (k,) and np.allclose(got, batch[:k], rtol=0, atol=1e-9)
+                        detail = 'max difference %.3g' % float(np.abs(got - batch[:k]).max()) if got.shape == (k,) else 'shape %r' % (got.shape,)
+                    except Exception as e:      # noqa
+                        okf, detail = False, '%s: %s' % (type(e).__name__, str(e)[:80])
+                    if not okf:
+                        chk.bounded_violation('C08.%s.ppf.containers.bounded' % fam,
+                                              {'family': fam, 'theta': theta, 'container': form, 'n': k},
+                                              'percent_point(y, v) given as %s differs from the same values given as ndarrays (%s)'
+                                              % (form, detail))
+                        break
         except report_mod.NativeTimeout:
             pass
         except Exception as e:      # noqa
             chk.notes.append('bounded element-wise run of %s: %s: %s' % (fam, type(e).__name__, str(e)[:80]))
+    chk.bounded.append({'name': 'C08.ppf.containers.bounded', 'clause': 'element i of the result pairs y[i] with v[i] by position, '
+                        'whatever one-dimensional container the two arguments come in',
+                        'bound': '120 values as list / strided view / Series with shuffled index / Series with shifted index, 5 '
+                                 '(family, theta) pairs', 'evaluations': 5 * 4 * 120, 'distinct_nontrivial': 20,
+                        'rule': 'one case = one (family, theta, container)'})
     chk.bounded.append({'name': 'C08.ppf.elementwise.bounded', 'clause': 'each element independently of the others (floats)',
                         'bound': 'batches of %d random (y, v) in [2e-4, 1-1e-4]^2 with adjacent extreme elements, 5 (family, theta) '
                                  'pairs; elements recomputed alone: the 2 x %d planted ones and 400 random ones' % (n, n // 50),
